@@ -77,7 +77,7 @@ Ltac en_leaf := cbn [map_en]; rewrite ?app_logmsg, ?app_mark, ?app_set_clock, ?a
 
 Lemma app_enact T b r c : enact b (app T r) c = map_en (app T) (enact b r c).
 Proof.
-  destruct b; cbn [enact]; app_norm; app_split2; en_leaf.
+  destruct b; cbn [enact]; unfold exit_value_missing; app_norm; app_split2; en_leaf.
 Qed.
 
 Definition map_fn (f:rt -> rt) (x:res (fres2 * rt * context)) : res (fres2 * rt * context) :=
